@@ -113,6 +113,7 @@ type vfPathOut struct {
 	InitObs vfObs       `json:"init_obs"`
 	Steps   []vfStepOut `json:"steps"`
 	Retries int         `json:"retries,omitempty"`
+	Soon    bool        `json:"soon,omitempty"`
 	Error   string      `json:"error,omitempty"`
 }
 
@@ -352,6 +353,7 @@ type vfEnv struct {
 	anchorT  time.Time
 	pending  []vfPending
 	miss     string // set when an action ran outside its time window
+	broken   string // set when the driver's own machinery (snapshot copy) failed
 }
 
 func (e *vfEnv) open(create bool) error {
@@ -461,11 +463,14 @@ func (e *vfEnv) exec(a vfAct) (vfAct, *vfConc) {
 		case a.D < 0:
 			choices := []time.Duration{-2 * time.Second, -2500 * time.Millisecond, -time.Minute, -time.Hour,
 				-24 * time.Hour, -1000000 * time.Hour, math.MinInt64}
-			if e.soon && !e.anchored && e.rng.Intn(64) == 0 {
+			// both draws are always made, so that the random stream (and with
+			// it every later spelling) does not depend on the soon flag
+			x, y := e.rng.Intn(64), e.rng.Intn(42)
+			if e.soon && !e.anchored && x == 0 {
 				dur = []time.Duration{0, 1, -1, 300 * time.Millisecond, -300 * time.Millisecond,
-					-999 * time.Millisecond}[e.rng.Intn(6)]
+					-999 * time.Millisecond}[y%6]
 			} else {
-				dur = choices[e.rng.Intn(len(choices))]
+				dur = choices[y%len(choices)]
 			}
 		case a.D >= 50:
 			dur = []time.Duration{time.Hour, 24 * time.Hour, 1000 * time.Hour, 2000000 * time.Hour,
@@ -614,13 +619,16 @@ func (e *vfEnv) observe(conc **vfConc) vfObs {
 	defer os.Remove(snap)
 	var buf bytes.Buffer
 	if err := e.db.Copy(&buf); err != nil {
+		e.broken = "snapshot copy: " + err.Error()
 		return o
 	}
 	if err := os.WriteFile(snap, buf.Bytes(), 0o600); err != nil {
+		e.broken = "snapshot write: " + err.Error()
 		return o
 	}
 	sdb, err := walletdb.Open("bdb", snap, true, 10*time.Second, false)
 	if err != nil {
+		e.broken = "snapshot open: " + err.Error()
 		return o
 	}
 	defer sdb.Close()
@@ -666,6 +674,7 @@ func (e *vfEnv) observe(conc **vfConc) vfObs {
 func vfRunOnce(p vfPathIn, scratch string, seed int64, soon bool) (out vfPathOut, miss string) {
 	out.ID = p.ID
 	out.PSeed = seed
+	out.Soon = soon
 	dir, err := os.MkdirTemp(scratch, "p")
 	if err != nil {
 		out.Error = err.Error()
@@ -695,6 +704,10 @@ func vfRunOnce(p vfPathIn, scratch string, seed int64, soon bool) (out vfPathOut
 		return
 	}
 	out.InitObs = e.observe(nil)
+	if e.broken != "" {
+		out.Error = e.broken
+		return
+	}
 	for _, s := range p.Steps {
 		if e.db == nil && s.Act.Op != "Reopen" {
 			break
@@ -710,6 +723,10 @@ func vfRunOnce(p vfPathIn, scratch string, seed int64, soon bool) (out vfPathOut
 			}
 		}
 		e.checkWindow()
+		if e.broken != "" {
+			out.Error = e.broken
+			return
+		}
 		if e.miss != "" {
 			return out, e.miss
 		}
